@@ -175,3 +175,24 @@ def run(repo: Repo, rep: Report, tier: str) -> None:
         c = [x for x in calls_in(f.node, "set_source")]
         ok = bool(c) and [norm(a) for a in c[0].args] == ["op.node_id", "op.entity_id"]
         rep.check(ok, "C06-R4", f"{name}: source of the read is the entity", norm(c[0]) if c else "missing", f.loc())
+
+    # ---------------- R9 ---------------------------------------------------------------
+    rep.rule("C06-R9", "the usage index that decides whether a comparison may be inlined (and its decider removed) knows every consumer: SignalAnalyzer.analyze reads, under an isinstance "
+             "branch for the class, every reference-holding slot of the IR schema; a slot it skips is a reader the inliner cannot see")
+    from ..irschema import ir_classes as _irc, ir_schema as _irs
+    from .c10 import slot_access as _slot_access
+    an9 = repo.func("SignalAnalyzer.analyze")
+    names9 = {c.name for c in _irc(repo)}
+    n9 = 0
+    for s9 in _irs(repo):
+        n9 += 1
+        ok9, where9 = _slot_access(repo, [an9], s9, names9, "load")
+        rep.check(ok9, "C06-R9", f"SignalAnalyzer.analyze records the consumer of {s9}", "read in the consumer ladder" if ok9 else
+                  f"{s9} is not recorded: `Signal c = x > 5; lamp.enable = c;` followed by a use of c in this slot removes the decider the slot reads", where9 or an9.loc())
+    rep.floor("C06-R9", "reference slots of the IR schema", n9, 15)
+
+    # ---------------- R10 / R11 --------------------------------------------------------
+    from .shared import borrow as _borrow6
+    _borrow6(repo, rep, "C12", "C12-R1", "C06-R10", "the network an entity's condition is evaluated on carries one producer per signal: relay poles are shared only inside one (source, colour) network", floor=3)
+    _borrow6(repo, rep, "C10", "C10-R1", "C06-R11", "the source of an inlined any()/all() condition and of a property value follows its producer through the optimizer passes",
+             select=lambda o: "IREntityPropWrite" in o.construct, floor=2)
